@@ -383,6 +383,22 @@ def _storage(o, ns):
         n = variants.check_storage(o, "transform_independent_of_storage", f, data, 1e-12, sub=name,
                                    kinds=("float32", "int64", "int32"))
         o.stat("lib_calls", n)
+    # two leading batch axes (a frame cut into sub-apertures, a cube of cubes), in every memory order of those axes
+    st4 = numpy.array([[re2, re2.T + 1.0, re2 * 2.0], [re2[::-1] - 1.0, re2 + 0.5 * re2.T, re2.T * 3.0]])
+    cut = (numpy.arange(144.0).reshape(12, 12) % 7 - 3.0).reshape(2, 6, 2, 6).swapaxes(1, 2)       # non-contiguous as is
+    for name, f, data in (("ft2:4d", lambda a: ns.ft2(a, 0.5), st4), ("ift2:4d", lambda a: ns.ift2(a, 0.5), st4),
+                          ("rft2:4d", lambda a: ns.rft2(a, 0.5), st4), ("ft:4d", lambda a: ns.ft(a, 0.5), st4),
+                          ("ift:4d", lambda a: ns.ift(a, 0.5), st4), ("rft:4d", lambda a: ns.rft(a, 0.5), st4)):
+        n = variants.check_storage(o, "transform_independent_of_storage", f, data, 1e-12, sub=name, kinds=("float32",))
+        o.stat("lib_calls", n)
+        got = numpy.asarray(f(cut))
+        want = numpy.asarray(f(numpy.ascontiguousarray(cut)))
+        o.close("transform_independent_of_storage", _maxabs(got - want) / max(_maxabs(want), 1e-300) if got.shape == want.shape else float("inf"),
+                1e-12, sub=name + ":frame_cut_into_subapertures_view")
+        per = numpy.array([[numpy.asarray(f(st4[a_, b_].copy())) for b_ in range(3)] for a_ in range(2)])
+        full = numpy.asarray(f(st4.copy()))
+        o.close("batch_per_item", _maxabs(full - per) / max(_maxabs(per), 1e-300) if full.shape == per.shape else float("inf"), 1e-12, sub=name)
+        o.stat("lib_calls", 9)
     cx = re2 + 1j * re2.T
     for name, f in (("ft2:complex", lambda a: ns.ft2(a, 0.5)), ("ift2:complex", lambda a: ns.ift2(a, 0.5))):
         n = variants.check_storage(o, "transform_independent_of_storage", f, cx, 1e-12, sub=name, kinds=("float32",))
